@@ -207,6 +207,36 @@ func (w *World) verifyOrder(sp *OrderSpec) (res *UnitResult) {
 					declared[id] = true
 				}
 				add("order/"+id, "map-range loop at "+where+" is order-free by shape (collect-then-sort, or per-key updates only)", true)
+			case len(dynCallsInLoop(l.fn, l.r)) > 0:
+				// the body calls a function value once per entry: whether the loop is order-free depends on
+				// what is passed in, so the judgement is made (and listed) per function that can arrive there
+				var callees []string
+				seenC := map[string]bool{}
+				for _, site := range dynCallsInLoop(l.fn, l.r) {
+					for _, cf := range w.siteCallees[site] {
+						// (a closure made by a function the roots cannot reach cannot arrive here)
+						if reach[cf] && reach[outermost(cf)] && !seenC[funcKey(cf)] {
+							seenC[funcKey(cf)] = true
+							callees = append(callees, funcKey(cf))
+						}
+					}
+				}
+				sort.Strings(callees)
+				if len(callees) == 0 {
+					add("order/"+id, "map-range loop at "+where+" calls a function value for which the call graph has no candidate", false)
+				}
+				for _, cf := range callees {
+					pid := id + "<-" + cf
+					if _, isDecl := declared[pid]; isDecl {
+						declared[pid] = true
+						l := "order sweep: map-range loop " + id + " (" + where + ") calling " + cf + " per entry is declared order-free (author's judgement)"
+						res.Ledger = append(res.Ledger, l)
+						x.ledger[l] = true
+						add("order/"+pid, "map-range loop at "+where+" with callback "+cf+" is declared order-free", true)
+					} else {
+						add("order/"+pid, "map-range loop at "+where+" calls "+cf+" once per entry, in map order: this pair must be declared order-free (order-free "+pid+")", false)
+					}
+				}
 			default:
 				if _, isDecl := declared[id]; isDecl {
 					declared[id] = true
@@ -231,6 +261,39 @@ func (w *World) verifyOrder(sp *OrderSpec) (res *UnitResult) {
 	}
 	res.Obls = x.obls
 	return
+}
+
+// dynCallsInLoop: the calls of function values (not static functions, not builtins) in the body of
+// the loop over r.
+func dynCallsInLoop(fn *ssa.Function, r *ssa.Range) []ssa.CallInstruction {
+	var next *ssa.Next
+	for _, u := range *r.Referrers() {
+		if n, ok := u.(*ssa.Next); ok {
+			next = n
+		}
+	}
+	if next == nil || len(next.Block().Succs) == 0 {
+		return nil
+	}
+	body := next.Block().Succs[0]
+	var out []ssa.CallInstruction
+	for _, b := range fn.Blocks {
+		if !body.Dominates(b) {
+			continue
+		}
+		for _, in := range b.Instrs {
+			if ci, ok := in.(ssa.CallInstruction); ok {
+				switch ci.Common().Value.(type) {
+				case *ssa.Function, *ssa.Builtin:
+				default:
+					if !ci.Common().IsInvoke() {
+						out = append(out, ci)
+					}
+				}
+			}
+		}
+	}
+	return out
 }
 
 // mapRangeShape returns "" when the loop over r is order-free by shape, or the reason why not.
